@@ -408,7 +408,7 @@ def run(ctx):
         'version 1.0-2.0 it encodes in; (b) grammar-aware corruptions of those (every length field +-1/+-8/0/2^31/2^32-1, '
         'tag and type flips, truncation at item boundaries, batch count != items, unsupported versions, unknown enum values, '
         'byte flips, duplicated/dropped items, deep nesting, raw random) in sequences bad*-then-good, each also replayed one '
-        'frame per connection on a twin engine; (c) every composition of every stream of <= 12 bytes (quick: 9..12 bytes, two '
+        'frame per connection on a twin engine; (c) every composition of every stream of <= 12 bytes (quick: 8..12 bytes, 1-2 '
         'streams per length) and random chunkings (1..9000-byte chunks) of long streams incl. frames > 4096 bytes; '
         '(d) maximum response size in {absent, 0, 1, size-1, size, size+1, 2^31-1, -1} for five operations. '
         'Distinct = distinct (frame bytes, chunking); every case involves a real parse or a real framing decision.')
@@ -494,12 +494,12 @@ def run(ctx):
         px = pool.fresh()
         g0 = by_label['get'][0][1]
         shorts = []
-        for n in (range(9, 13) if quick else range(1, 13)):
+        for n in (range(8, 13) if quick else range(1, 13)):
             # n bytes: as many honest tiny frames as fit, then a truncated rest
             s1 = (b'\x42\x00\x78\x01' + struct.pack('>I', max(0, n - 8)) + bytes(range(max(0, n - 8))))[:n]
             s2 = (b'\x42\x00\x78\x01\x00\x00\x00\x00' + g0)[:n]
             s3 = (b'\x42\x00\x78\x01\x00\x00\x00\x01\x99' + b'\x42\x00\x78')[:n]
-            shorts += [s1, s2] if quick else [s1, s2, s3]
+            shorts += ([s1] + ([s2] if n == 10 else []) + ([s3] if n == 11 else [])) if quick else [s1, s2, s3]
         for s in shorts:
             ref = None
             for sizes in compositions(len(s)):
